@@ -4380,3 +4380,91 @@ func init() {
 			return out
 		}})
 }
+
+// CONDIDX — a condition on one component does not govern an update of the sibling component only.
+//
+// `if values[i][1].Cmp(zero) >= 0 { values[i][1].Add(values[i][1], half) } else { values[i][1].Sub(…) }` rounds the
+// imaginary part half away from zero; the copy of the block for the real part differs only by the constant index. Testing
+// component [0] while both arms update component [1] (a one-character slip) rounds the imaginary part by the sign of
+// the real one — invisible whenever the two have the same sign.
+//
+// Rule: for every if/else whose condition mentions exactly one element `B[k]` with a constant index k, if every mention
+// of an element of B in both arms has one and the same other constant index k' != k, the condition tests the wrong
+// component.
+func scanCondIdx(c *core.Ctx) []ob {
+	var out []ob
+	n := 0
+	c.FuncDecls(func(pk *packages.Package, file *ast.File, fd *ast.FuncDecl) {
+		if fd.Body == nil || fileIsTestSupport(c.Program, fd.Pos()) || inExamples(pk) {
+			return
+		}
+		fkey := core.FuncKey(pk, fd)
+		type el struct{ base, idx string }
+		elems := func(nd ast.Node) []el {
+			var r []el
+			ast.Inspect(nd, func(x ast.Node) bool {
+				if ie, ok := x.(*ast.IndexExpr); ok {
+					if lit, ok := unparen(ie.Index).(*ast.BasicLit); ok && lit.Kind == token.INT {
+						r = append(r, el{exprString(ie.X), lit.Value})
+					}
+				}
+				return true
+			})
+			return r
+		}
+		ord := 0
+		ast.Inspect(fd.Body, func(x ast.Node) bool {
+			is, ok := x.(*ast.IfStmt)
+			if !ok || is.Else == nil {
+				return true
+			}
+			ce := elems(is.Cond)
+			if len(ce) != 1 {
+				return true
+			}
+			var arm []el
+			for _, e := range append(elems(is.Body), elems(is.Else)...) {
+				if e.base == ce[0].base {
+					arm = append(arm, e)
+				}
+			}
+			if len(elems(is.Body)) == 0 || len(elems(is.Else)) == 0 || len(arm) == 0 {
+				return true
+			}
+			ord++
+			n++
+			key := fmt.Sprintf("CONDIDX:%s#%s@%d", fkey, ce[0].base, ord)
+			same, other := false, ""
+			uniform := true
+			for _, e := range arm {
+				if e.idx == ce[0].idx {
+					same = true
+				} else if other == "" {
+					other = e.idx
+				} else if other != e.idx {
+					uniform = false
+				}
+			}
+			if !same && uniform && other != "" {
+				out = append(out, withProps(violOb("CONDIDX", key, c.Rel(is.Cond.Pos()), fmt.Sprintf("%s tests %s[%s] but both arms only touch %s[%s]: the condition looks at the sibling component (the two agree only when both components have the same sign/size)", fkey, ce[0].base, ce[0].idx, ce[0].base, other)), propsForKey(fkey)...))
+			} else {
+				out = append(out, withProps(okOb("CONDIDX", key, c.Rel(is.Cond.Pos()), "the arms touch the component that the condition tests", true), propsForKey(fkey)...))
+			}
+			return true
+		})
+	})
+	c.Stats["condidx_sites"] = n
+	return out
+}
+
+func init() {
+	core.Register(&core.Rule{Name: "CONDIDX", Wide: true, Props: []string{"C07"},
+		Doc: "for every if/else whose condition mentions exactly one element B[k] with a constant index, the arms do not mention elements of B exclusively with one other constant index k'",
+		Run: func(c *core.Ctx) []ob {
+			out := scanCondIdx(c)
+			for _, o := range control(c, "CONDIDX", scanCondIdx, "lvfixture.roundPair") {
+				out = append(out, withProps(o, "C07"))
+			}
+			return out
+		}})
+}
